@@ -13,6 +13,7 @@
 #include "Image.hh"
 #include "Filesystem.hh"
 #include <zlib.h>
+#include <sanitizer/lsan_interface.h>
 #include <stdexcept>
 #include <string>
 using namespace phosg;
@@ -36,6 +37,24 @@ struct TmpFile {
   }
   ~TmpFile() { fclose(f); }
 };
+
+// a PPM-family file whose pixel data is cut short must be rejected with an exception AND leave nothing allocated behind
+// (LeakSanitizer is on for the replays that call this: Replay(leaks=True))
+static int truncated_load_is_clean(const string& file, const char* what) {
+  if (file.size() < 2) return 0;
+  string cut = file.substr(0, file.size() - 1);
+  bool threw = false;
+  {
+    TmpFile t(cut);
+    try { Image im(t.f); } catch (const std::exception&) { threw = true; }
+  }
+  if (!threw) { printf("POSTCONDITION VIOLATED on the real code: %s with the last byte of the pixel data missing was accepted\n", what); return 1; }
+  if (__lsan_do_recoverable_leak_check()) {
+    printf("POSTCONDITION VIOLATED on the real code: rejecting %s with truncated pixel data leaks the pixel buffer (LeakSanitizer report above)\n", what);
+    return 1;
+  }
+  return 0;
+}
 
 static uint64_t mem_sample(const Image& im, size_t idx) {
   const uint8_t* p = static_cast<const uint8_t*>(im.get_data());
@@ -202,9 +221,12 @@ int main(int argc, char** argv) {
     if (m == "gray_load") {
       string file = gray_file(w, h, alpha, cw, A.u("in_p7") & 1);
       printf("witness file: %zu bytes, header \"%s\"\n", file.size(), file.substr(0, 2).c_str());
-      TmpFile t(file);
-      Image im(t.f);
-      if (int r = check_gray(im, w, h, alpha, cw)) return r;
+      {
+        TmpFile t(file);
+        Image im(t.f);
+        if (int r = check_gray(im, w, h, alpha, cw)) return r;
+      }
+      if (int r = truncated_load_is_clean(file, "a gray file")) return r;
     } else if (m == "p7_header") {
       // well-formed P7 (PAM) headers of the four tuple types (DEPTH = samples per tuple as the format defines): all must load;
       // the counterexample is over abstract line contents, so the driver builds the files itself
@@ -241,9 +263,12 @@ int main(int argc, char** argv) {
     } else if (m == "ppm_roundtrip") {
       Image a = make_image(w, h, alpha, cw);
       string bytes = a.save(Image::Format::COLOR_PPM);
-      TmpFile t(bytes);
-      Image b(t.f);
-      if (int r = same_pixels(a, b)) return r;
+      {
+        TmpFile t(bytes);
+        Image b(t.f);
+        if (int r = same_pixels(a, b)) return r;
+      }
+      if (int r = truncated_load_is_clean(bytes, "a colour PPM file")) return r;
     } else if (m == "bmp_roundtrip") {
       Image a = make_image(w, h, alpha, 8);
       string bytes = a.save(Image::Format::WINDOWS_BITMAP);
